@@ -6,6 +6,8 @@ HERE="$(cd "$(dirname "$0")/.." && pwd)"
 JOBS=${1:-6}; shift
 one() {
   name=$1; d="$HERE/seeded/$name"; wt=/tmp/cs_$name
+  skip=$(python3 -c "import json;m=json.load(open('$d/meta.json'));print(m.get('skip_regression',''))")
+  if [ -n "$skip" ]; then echo "$name skipped: $skip"; return; fi
   c=$(python3 -c "import json;m=json.load(open('$d/meta.json'));print((m['caught_by'] or ['QUIET:'+m['breaks_property']])[0])")
   quiet=0; case "$c" in QUIET:*) quiet=1; c=${c#QUIET:};; esac
   git -C /repo worktree add --detach "$wt" HEAD -q 2>/dev/null || { echo "$name worktree-failed"; return; }
